@@ -5,7 +5,9 @@ base = json.load(open('/root/.vp/BASELINE.json'))
 d = tempfile.mkdtemp()
 x = os.path.join(d, 'j.xml')
 env = dict(os.environ); env.pop('NFCPY_VERIF', None)
-cmd = base['cmd'].replace('<file>', x)
+repo = sys.argv[1] if len(sys.argv) > 1 else '/repo'
+env['PYTHONPATH'] = repo + '/src'
+cmd = base['cmd'].replace('<file>', x).replace('cd /repo', 'cd ' + repo)
 subprocess.run(cmd, shell=True, env=env, stdout=subprocess.DEVNULL, stderr=subprocess.DEVNULL)
 passed = set()
 for tc in ET.parse(x).getroot().iter('testcase'):
